@@ -1,13 +1,14 @@
 package updog
 
 import (
+	"encoding/binary"
 	"fmt"
-	"math/bits"
 	"sort"
 	"strings"
 	"time"
 
 	"github.com/RoaringBitmap/roaring"
+	"github.com/cespare/xxhash/v2"
 )
 
 // Query describes a count query to execute on an index. updog allows you to run
@@ -249,8 +250,24 @@ const (
 	maskOr  = 0xBFB85A99B03E78E7
 )
 
+// combineCacheKeys derives the cache key of an operator node by hashing its tag followed
+// by the keys of its operands in order. The operand keys must not be combined arithmetically:
+// XOR and the like are commutative and self-cancelling, so expressions with different
+// meaning (e.g. (a|c)&(b|c) and ^a&^b) would end up sharing a key.
+func combineCacheKeys(tag uint64, keys ...uint64) uint64 {
+	buf := make([]byte, 0, 8*(len(keys)+1))
+
+	buf = binary.BigEndian.AppendUint64(buf, tag)
+
+	for _, key := range keys {
+		buf = binary.BigEndian.AppendUint64(buf, key)
+	}
+
+	return xxhash.Sum64(buf)
+}
+
 func (e *ExprNot) cacheKey() uint64 {
-	return bits.RotateLeft64(e.Expr.cacheKey(), 1) ^ maskNot
+	return combineCacheKeys(maskNot, e.Expr.cacheKey())
 }
 
 type ExprAnd struct {
@@ -301,12 +318,12 @@ func (e *ExprAnd) String() string {
 }
 
 func (e *ExprAnd) cacheKey() uint64 {
-	key := uint64(maskAnd)
+	keys := make([]uint64, 0, len(e.Exprs))
 	for _, e := range e.Exprs {
-		key = key ^ bits.RotateLeft64(e.cacheKey(), 1)
+		keys = append(keys, e.cacheKey())
 	}
 
-	return key
+	return combineCacheKeys(maskAnd, keys...)
 }
 
 type ExprOr struct {
@@ -357,10 +374,10 @@ func (e *ExprOr) String() string {
 }
 
 func (e *ExprOr) cacheKey() uint64 {
-	key := uint64(maskOr)
+	keys := make([]uint64, 0, len(e.Exprs))
 	for _, e := range e.Exprs {
-		key = key ^ bits.RotateLeft64(e.cacheKey(), 1)
+		keys = append(keys, e.cacheKey())
 	}
 
-	return key
+	return combineCacheKeys(maskOr, keys...)
 }
